@@ -90,6 +90,7 @@ def build(vecs, desc=None):
         # integer-valued RDMs held in an integer array (RDMs keeps the dtype of vector input):
         # every other integral case, as a deterministic function of the case
         a = a.astype(np.int64)
+    a = gen.relayout(a)         # C / Fortran / strided / transposed memory, by shape
     if desc is None:
         return RDMs(a)
     rd = {k: gen.as_desc(v['values'], v['container']) for k, v in desc['rdm_descriptors'].items()}
